@@ -15,6 +15,7 @@ INVARIANT MCRefinesFirst
 INVARIANT MCNoLeak
 INVARIANT ReadOK
 INVARIANT MCLawsAgree
+INVARIANT MCReplayKeeps
 PROPERTY NoLookAhead
 PROPERTY NoLookAheadLaw
 PROPERTY AgainNoop
